@@ -64,7 +64,8 @@ VarTab == [
 ]
 Vars == DOMAIN VarTab
 Flags == {"quat", "disP", "disV", "disG", "lock", "con", "mot"}
-ValOf(x) == IF x \in Flags THEN 0..1 ELSE 0..MaxVal
+\* flags are off / on; the lock has a third value (the acceleration prescribed to a non-zero value, lockAt) -- results depend on which
+ValOf(x) == IF x = "lock" THEN 0..2 ELSE IF x \in Flags THEN 0..1 ELSE 0..MaxVal
 Bump(x) == IF ("Inv_" \o x) \in DEV THEN 1 ELSE 0      \* deviation: invalidates one stage too high
 Inv(x)  == VarTab[x].inv + Bump(x)
 Dir(c)  == {x \in Vars : VarTab[x].dir = c}
